@@ -670,10 +670,10 @@ class Model:
                             support = ambset
                     ew_constr = ew_constr.forall(support)
                 else:
-                    ew_constr = LinConstr(ew_constr.affine.model,
-                                          ew_constr.affine.linear,
-                                          ew_constr.affine.const,
-                                          ew_constr.sense)
+                    aff = ew_constr.affine
+                    ew_constr = LinConstr(aff.model, aff.linear,
+                                          -aff.const.reshape(aff.const.size),
+                                          np.zeros(aff.const.size) + ew_constr.sense)
 
             ro_constr.append(ew_constr)
 
